@@ -1467,3 +1467,47 @@ package gkvlite
 //@   props C06 C18
 //@   from: C06 ("the IterateAscend/IterateDescend iterators deliver the identical sequences"): the iterator carries the requested target and value mode to the producer
 //@   ensures [C06] carries-the-request: result != nil && fresh(result) && result.withValue == withValue && result.target == target && !result.closed && result.next != nil && result.items != nil
+
+// ---------------------------------------------------------------------------
+// collection.go: Len and the block arithmetic (C16). The count itself (Len == number of items) needs an
+// induction over the visitor calls that a first-order, per-function contract cannot carry; it is covered by the
+// bounded harness (see DESIGN). What IS proved: no panic at any size (empty included), the counting visitor
+// counts every call, nothing is leaked, nothing changes.
+
+//@ func (*Collection).Len$1
+//@   props C16 C06
+//@   from: handed to VisitItemsAscendEx as its visitor, so it must satisfy the ItemVisitorEx contract (the ghost prologue writes the log entry); it counts every call and never stops
+//@   requires i != nil && l != nil && locks == emptyLocks()
+//@   modifies cell.Int, ghost vis.n, ghost vis.key, ghost vis.item, ghost vis.depth, ghost vis.hasval, ghost vis.stop
+//@   after entry sets vis.key := upd(vis.key, vis.n, ikey(ia(i)))
+//@   after entry sets vis.item := upd(vis.item, vis.n, ia(i))
+//@   after entry sets vis.depth := upd(vis.depth, vis.n, depth)
+//@   after entry sets vis.hasval := upd(vis.hasval, vis.n, i.Val != nil)
+//@   after entry sets vis.n := vis.n + 1
+//@   ensures logs: vis.n == old(vis.n) + 1 && vis.key == upd(old(vis.key), old(vis.n), ikey(ia(i))) && vis.item == upd(old(vis.item), old(vis.n), ia(i)) && vis.hasval == upd(old(vis.hasval), old(vis.n), i.Val != nil) && vis.depth == upd(old(vis.depth), old(vis.n), depth)
+//@   ensures kept-going: result && vis.stop == old(vis.stop)
+//@   ensures [C16] counts-every-call: deref(l) == old(deref(l)) + 1
+
+//@ func (*Collection).Len
+//@   props C16 C19 C07 C15 C05 C04 C09 C18
+//@   from: C16 statement ("Len() equals the number of items ... for every collection size, including empty")
+//@   requires [C05,C18] nolocks: locks == emptyLocks()
+//@   requires t != nil && t.store != nil && t.rootLock != nil && t.compare != nil
+//@   requires [C07] open-handle: t.root != nil
+//@   modifies rootNodeLoc.refs, rootNodeLoc.root, rootNodeLoc.next, rootNodeLoc.chainedCollection, rootNodeLoc.chainedRootNodeLoc, node.numNodes, node.numBytes, node.next, itemLoc.loc, itemLoc.item, nodeLoc.loc, nodeLoc.node, nodeLoc.next, mem.ptr, G.freeNodes, G.freeNodeLocs, G.freeRootNodeLocs, AllocStats.CurFreeNodes, AllocStats.FreeNodes, AllocStats.CurFreeNodeLocs, AllocStats.FreeNodeLocs, AllocStats.CurFreeRootNodeLocs, AllocStats.FreeRootNodeLocs, ghost net, ghost tvs, t.store.nodeAllocs, new ploc.Offset, new ploc.Length, new node.numNodes, new node.numBytes, new node.next, new itemLoc.loc, new itemLoc.item, new nodeLoc.loc, new nodeLoc.node, new nodeLoc.next, new Item.Key, new Item.Val, new Item.Priority, new Item.Transient, new mem.byte, ghost io.fails, ghost io.reads, ghost io.valbytes, ghost src, cell.Int, ghost orphans, ghost vis.n, ghost vis.key, ghost vis.item, ghost vis.depth, ghost vis.hasval, ghost vis.stop
+//@   ensures [C07] E1: io.fails >= old(io.fails) && (io.fails > old(io.fails) ==> err != nil)
+//@   ensures [C16] empty-collection-has-length-zero: err == nil && isLeaf(old(tvs)[old(t.root.root)]) ==> l == 0
+//@   ensures [C19] key-only-reads-no-value: io.valbytes == old(io.valbytes)
+//@   ensures [C04,C09,C18] changes-no-version: t.root == old(t.root) && rootNodeLoc.refs == old(rootNodeLoc.refs) && rootNodeLoc.root == old(rootNodeLoc.root) && rootNodeLoc.next == old(rootNodeLoc.next) && rootNodeLoc.chainedCollection == old(rootNodeLoc.chainedCollection) && rootNodeLoc.chainedRootNodeLoc == old(rootNodeLoc.chainedRootNodeLoc) && tvs == old(tvs) && ias == old(ias) && (forall m {node.next[m]} :: !fresh(m) ==> node.next[m] == old(node.next[m])) && (forall x {nodeLoc.loc[x]} {nodeLoc.next[x]} :: !fresh(x) ==> nodeLoc.loc[x] == old(nodeLoc.loc[x]) && nodeLoc.next[x] == old(nodeLoc.next[x])) && freeNodes == old(freeNodes) && freeNodeLocs == old(freeNodeLocs) && freeRootNodeLocs == old(freeRootNodeLocs)
+//@   ensures [C15] balanced: refcb(t.store) ==> forall j {net[j]} :: !fresh(j) ==> net[j] == old(net[j])
+
+//@ func (*Collection).determineBlocks
+//@   props C16 C07
+//@   from: C16 ("sizes that are not a multiple of the internal block length or that exceed the maximum block count"): blocks of leng+1 items, at most MaxBlockCnt of them, cover cnt items
+//@   requires [C05,C18] nolocks: locks == emptyLocks()
+//@   requires t != nil && t.store != nil && t.rootLock != nil && t.compare != nil
+//@   requires [C07] open-handle: t.root != nil
+//@   modifies rootNodeLoc.refs, rootNodeLoc.root, rootNodeLoc.next, rootNodeLoc.chainedCollection, rootNodeLoc.chainedRootNodeLoc, node.numNodes, node.numBytes, node.next, itemLoc.loc, itemLoc.item, nodeLoc.loc, nodeLoc.node, nodeLoc.next, mem.ptr, G.freeNodes, G.freeNodeLocs, G.freeRootNodeLocs, AllocStats.CurFreeNodes, AllocStats.FreeNodes, AllocStats.CurFreeNodeLocs, AllocStats.FreeNodeLocs, AllocStats.CurFreeRootNodeLocs, AllocStats.FreeRootNodeLocs, ghost net, ghost tvs, t.store.nodeAllocs, new ploc.Offset, new ploc.Length, new node.numNodes, new node.numBytes, new node.next, new itemLoc.loc, new itemLoc.item, new nodeLoc.loc, new nodeLoc.node, new nodeLoc.next, new Item.Key, new Item.Val, new Item.Priority, new Item.Transient, new mem.byte, ghost io.fails, ghost io.reads, ghost io.valbytes, ghost src, cell.Int, ghost orphans, ghost vis.n, ghost vis.key, ghost vis.item, ghost vis.depth, ghost vis.hasval, ghost vis.stop
+//@   ensures [C07] E1: io.fails >= old(io.fails) && (io.fails > old(io.fails) ==> err != nil)
+//@   ensures [C16] block-shape: err == nil ==> 0 <= num && num <= 1024 && leng >= 1
+//@   ensures [C04,C09,C18] changes-no-version: t.root == old(t.root) && rootNodeLoc.refs == old(rootNodeLoc.refs) && rootNodeLoc.root == old(rootNodeLoc.root) && rootNodeLoc.next == old(rootNodeLoc.next) && rootNodeLoc.chainedCollection == old(rootNodeLoc.chainedCollection) && rootNodeLoc.chainedRootNodeLoc == old(rootNodeLoc.chainedRootNodeLoc) && tvs == old(tvs) && ias == old(ias) && (forall m {node.next[m]} :: !fresh(m) ==> node.next[m] == old(node.next[m])) && (forall x {nodeLoc.loc[x]} {nodeLoc.next[x]} :: !fresh(x) ==> nodeLoc.loc[x] == old(nodeLoc.loc[x]) && nodeLoc.next[x] == old(nodeLoc.next[x])) && freeNodes == old(freeNodes) && freeNodeLocs == old(freeNodeLocs) && freeRootNodeLocs == old(freeRootNodeLocs)
